@@ -7,7 +7,7 @@ ID = "C10"
 LEVEL = "exploration"
 TECHNIQUE = "reference-model monitor: provenance-tagged temporaries in R3's replay of every rewrite (bijection between (expansion step, n) and the engine's identifier texts, R1 as the 'can a user write this' test) + end-to-end comparison of VM results with the reference interpreter under hygienic expansion, under ASan+UBSan"
 FLAVOURS = [("asan", "generated")]
-RULE = ("sources using macros with temporaries (SWAP, ROT, REPEAT, IFZ, with #0..#2) inside their own slot arguments, twice in one statement sequence, "
+RULE = ("sources using macros with temporaries (SWAP, ROT, ROT4, REPEAT, IFZ, with #0..#2 and #1/#10/#11/#100 side by side) inside their own slot arguments, twice in one statement sequence, "
         "mutually nested, with the definitions spread over several files on equal line numbers or packed on one line; (1) every rewrite is replayed: "
         "two occurrences with the same (step, n) must get the same identifier, different (step, n) different identifiers, and no generated identifier "
         "may tokenise as a user-writable identifier; (2) the program is compiled and run and its final variables compared with the reference "
@@ -21,6 +21,8 @@ DEFS = [
     "DEFINE IFZ <V> THEN <P> ELSE <P> FI AS #0 := 0 ; #1 := 1 ; #2 := $0 ; LOOP #2 DO #0 := 1 ; #1 := 0 END ; LOOP #1 DO $1 END ; LOOP #0 DO $2 END END DEFINE",
     "DEFINE ROT <ID> <ID> <ID> AS #0 := $0 ; $0 := $1 ; $1 := $2 ; $2 := #0 END DEFINE",
     "DEFINE TWICE <P> ECIWT AS #1 := 2 ; LOOP #1 DO $0 END END DEFINE",
+    # two-digit temporaries beside their one-digit prefixes: #1, #10, #11, #100 are four different variables
+    "DEFINE ROT4 <ID> <ID> <ID> <ID> AS #10 := $0 ; #1 := $1 ; #11 := $2 ; #100 := $3 ; $0 := #100 ; $1 := #10 ; $2 := #1 ; $3 := #11 END DEFINE",
 ]
 VARS = ["x", "y", "z", "u"]
 
@@ -36,8 +38,10 @@ def stmt(r, depth):
         return ["IFZ", r.choice([a, "0", "1"]), "THEN"] + seq(r, depth + 1) + ["ELSE"] + seq(r, depth + 1) + ["FI"]
     if q < 0.8:
         return ["TWICE"] + seq(r, depth + 1) + ["ECIWT"]
-    if q < 0.9:
+    if q < 0.87:
         return ["SWAP", a, b]
+    if q < 0.94:
+        return ["ROT4", a, b, c, [v for v in VARS if v not in (a, b, c)][0]]
     return ["ROT", a, b, c]
 
 
